@@ -236,6 +236,25 @@ def run_table(case):
                     obs["reused_request_objects_checked"] = 1
             except Exception as e:  # noqa: BLE001
                 viol.append({"clause": "re-used-put-request-object-raised", "etype": type(e).__name__, "msg": str(e)[:120]})
+        if not viol and w.S.h.state.name == "IDLE":
+            # the user raises the maximum packet length of this destination and sends the file again (a new request object): the segment
+            # length follows the configuration as it is now
+            w.rc_dst_at_src.max_packet_len = maxpkt + 16
+            if w.rc_dst_at_src.max_file_segment_len != seg:
+                viol.append({"clause": "remote-entity-configuration-modified-by-the-handler", "max_file_segment_len": w.rc_dst_at_src.max_file_segment_len, "configured": seg})
+            derived3 = models.max_fd_payload(maxpkt + 16, idw, 2, crc)
+            eff3 = derived3 if seg is None else min(seg, derived3)
+            mark = len(w.log.events)
+            try:
+                ok3 = w.S.put(PutRequest(w.dst_id, w.src_path, w.dst_req_path, MODES[case["rm"]], case["rc"]))
+                drive(w, put=False)
+                lens3 = [d["dlen"] for d in (wire.describe(x["raw"]) for x in w.log.events[mark:] if x["kind"] == "tx" and x["side"] == "S") if d.get("kind") == "FD"]
+                if ok3 is not True or not lens3 or max(lens3) != min(eff3, len(w.data)) or any(x > eff3 for x in lens3):
+                    viol.append({"clause": "segment-length-after-packet-length-was-raised", "observed": lens3, "configured": seg, "derived_now": derived3, "want": eff3})
+                else:
+                    obs["segment_length_after_mib_change_checked"] = 1
+            except Exception as e:  # noqa: BLE001
+                viol.append({"clause": "put-after-mib-change-raised", "etype": type(e).__name__, "msg": str(e)[:120]})
         obs["table_cells"] = 1
         obs["mode_from_" + ("request" if case["rm"] else "mib")] = 1
         obs["closure_from_" + ("request" if case["rc"] is not None else "mib")] = 1
@@ -504,5 +523,5 @@ def exhaustive(tier):
     return False
 
 
-REQUIRED = {"table_cells": 432, "puts_on_busy_handler": 100, "traces_equal_to_reference": 100, "invalid_sequences": 20, "reuse_traces_equal_to_reference": 10,
+REQUIRED = {"segment_length_after_mib_change_checked": 200, "table_cells": 432, "puts_on_busy_handler": 100, "traces_equal_to_reference": 100, "invalid_sequences": 20, "reuse_traces_equal_to_reference": 10,
             "documented_errors_SourceFileDoesNotExist": 10, "documented_errors_NoRemoteEntityCfgFound": 10, "seq_runs": 50, "transactions_started": 200, "reused_request_objects_checked": 100, "top_of_sequence_number_range_reached": 3}
